@@ -712,6 +712,8 @@ pub mod forwarder {
         },
         /// client c pings a silent address (no reply ever comes)
         EchoSilent { c: u8, size: u16 },
+        /// client c pings ::1 (answered by the kernel) with this hop limit
+        Echo6 { c: u8, size: u16, ttl: u8 },
         /// an ICMP error (3 = unreachable, 11 = time exceeded) about the n-th request sent so far,
         /// quoting `quote` bytes of its payload (255 = the whole request)
         ErrorAbout { n: u8, type_id: u8, code: u8, quote: u8 },
@@ -842,6 +844,60 @@ pub mod forwarder {
         }
     }
 
+    /// A raw ICMPv6 socket that reports the hop limit of what it receives
+    struct Raw6(i32);
+
+    impl Raw6 {
+        fn new() -> Result<Self, String> {
+            let fd = unsafe { libc::socket(libc::AF_INET6, libc::SOCK_RAW | libc::SOCK_NONBLOCK, libc::IPPROTO_ICMPV6) };
+            if fd < 0 {
+                return Err(std::io::Error::last_os_error().to_string());
+            }
+            let on: libc::c_int = 1;
+            unsafe {
+                libc::setsockopt(fd, libc::IPPROTO_IPV6, libc::IPV6_RECVHOPLIMIT, &on as *const _ as *const libc::c_void, 4);
+            }
+            Ok(Self(fd))
+        }
+        /// (hop limit, ICMPv6 message) of everything received so far
+        fn drain(&self) -> Vec<(u8, Vec<u8>)> {
+            let mut out = vec![];
+            loop {
+                let mut buf = vec![0u8; 70_000];
+                let mut cbuf = [0u8; 128];
+                let mut iov = libc::iovec { iov_base: buf.as_mut_ptr() as *mut libc::c_void, iov_len: buf.len() };
+                let mut msg: libc::msghdr = unsafe { std::mem::zeroed() };
+                msg.msg_iov = &mut iov;
+                msg.msg_iovlen = 1;
+                msg.msg_control = cbuf.as_mut_ptr() as *mut libc::c_void;
+                msg.msg_controllen = cbuf.len() as _;
+                let n = unsafe { libc::recvmsg(self.0, &mut msg, libc::MSG_DONTWAIT) };
+                if n <= 0 {
+                    return out;
+                }
+                let mut hop = 0u8;
+                unsafe {
+                    let mut c = libc::CMSG_FIRSTHDR(&msg);
+                    while !c.is_null() {
+                        if (*c).cmsg_level == libc::IPPROTO_IPV6 && (*c).cmsg_type == libc::IPV6_HOPLIMIT {
+                            let v = *(libc::CMSG_DATA(c) as *const libc::c_int);
+                            hop = v as u8;
+                        }
+                        c = libc::CMSG_NXTHDR(&msg, c);
+                    }
+                }
+                buf.truncate(n as usize);
+                out.push((hop, buf));
+            }
+        }
+    }
+
+    impl Drop for Raw6 {
+        fn drop(&mut self) {
+            unsafe { libc::close(self.0) };
+        }
+    }
+
     #[derive(Clone, Debug)]
     struct Sent {
         client: usize,
@@ -854,6 +910,25 @@ pub mod forwarder {
         wire: Option<Vec<u8>>,
         size: u16,
         ttl: u8,
+        v6: bool,
+    }
+
+    /// The same for ICMPv6 echo requests to ::1
+    fn absorb6(raw: &Raw6, sent: &mut [Sent]) -> Verdict {
+        for (hop, p) in raw.drain() {
+            if p.len() < 8 || p[0] != 128 {
+                continue;
+            }
+            let (pid, pseq) = (u16::from_be_bytes([p[4], p[5]]), u16::from_be_bytes([p[6], p[7]]));
+            let Some(s) = sent.iter_mut().find(|s| s.v6 && s.id == pid && s.seq == pseq) else { continue };
+            let what = format!("ICMPv6 echo request id {:#06x} seq {} to ::1 (asked: hop limit {}, {} data bytes)", s.id, s.seq, s.ttl, s.size);
+            ensure!(s.wire.is_none(), "icmp:request-emitted-twice", "{}: seen on the wire a second time", what);
+            ensure!(hop == s.ttl, "icmp:request-ttl-differs", "{}: left with hop limit {}", what, hop);
+            ensure!(p[1] == 0, "icmp:request-malformed", "{}: code {}", what, p[1]);
+            ensure!(p.len() == 8 + s.size as usize, "icmp:request-size-differs", "{}: {} data bytes on the wire", what, p.len() - 8);
+            s.wire = Some(p);
+        }
+        Ok(())
     }
 
     /// Take the echo requests sniffed so far and check each against what its client asked for
@@ -863,7 +938,7 @@ pub mod forwarder {
                 continue;
             }
             let (pid, pseq) = (u16::from_be_bytes([p[24], p[25]]), u16::from_be_bytes([p[26], p[27]]));
-            let Some(s) = sent.iter_mut().find(|s| s.id == pid && s.seq == pseq) else { continue };
+            let Some(s) = sent.iter_mut().find(|s| !s.v6 && s.id == pid && s.seq == pseq) else { continue };
             let what = format!("echo request id {:#06x} seq {} to {} (asked: ttl {}, {} data bytes)", s.id, s.seq, s.dest, s.ttl, s.size);
             ensure!(s.wire.is_none(), "icmp:request-emitted-twice", "{}: seen on the wire a second time", what);
             let icmp_part = &p[20..];
@@ -889,7 +964,9 @@ pub mod forwarder {
             Ok(r) => r,
             Err(e) => return viol("harness:raw-socket", format!("cannot open a raw ICMP socket: {}", e)),
         };
-        let spec = CoreSpec { icmp: true, icmp_timeout: Duration::from_millis(TIMEOUT_MS), ipv6_available: false, ..CoreSpec::default() };
+        // ICMPv6 only where the sandbox lets a raw ICMPv6 socket be opened
+        let raw6 = Raw6::new().ok();
+        let spec = CoreSpec { icmp: true, icmp_timeout: Duration::from_millis(TIMEOUT_MS), ipv6_available: raw6.is_some(), ..CoreSpec::default() };
         let world = Arc::new(spec.build().map_err(herr)?);
         let mut scripted = Scripted::new(|_| Outcome::Refused);
         Arc::get_mut(&mut scripted).unwrap().icmp_plan = || MuxPlan::Real;
@@ -924,10 +1001,23 @@ pub mod forwarder {
                     let id = id_base ^ (ci as u16);
                     let rec = icmp::encode_request(&icmp::Request { id, destination: IpAddr::V4(dest), seq, ttl, data_size: size });
                     clients[ci].send.send_data(Bytes::from(rec), false).map_err(|e| herr(e.to_string()))?;
-                    sent.push(Sent { client: ci, id, seq, dest, silent, at: Instant::now(), wire: None, size, ttl });
+                    sent.push(Sent { client: ci, id, seq, dest, silent, at: Instant::now(), wire: None, size, ttl, v6: false });
                     if !silent {
                         expected[ci].push(Reply { id, source: IpAddr::V4(dest), type_id: 0, code: 0, seq });
                     }
+                }
+                Op::Echo6 { c, size, ttl } => {
+                    let Some(_) = &raw6 else { continue };
+                    let ci = *c as usize % 3;
+                    let size = *size % 1200;
+                    let ttl = (*ttl).max(1);
+                    seq = seq.wrapping_add(1);
+                    let id = id_base ^ (ci as u16);
+                    let dest = IpAddr::V6(std::net::Ipv6Addr::LOCALHOST);
+                    let rec = icmp::encode_request(&icmp::Request { id, destination: dest, seq, ttl, data_size: size });
+                    clients[ci].send.send_data(Bytes::from(rec), false).map_err(|e| herr(e.to_string()))?;
+                    sent.push(Sent { client: ci, id, seq, dest: Ipv4Addr::UNSPECIFIED, silent: false, at: Instant::now(), wire: None, size, ttl, v6: true });
+                    expected[ci].push(Reply { id, source: dest, type_id: 129, code: 0, seq });
                 }
                 Op::ErrorAbout { n, type_id, code, quote } => {
                     if sent.is_empty() {
@@ -936,6 +1026,9 @@ pub mod forwarder {
                     let k = idx((*n as u16) << 8, sent.len());
                     absorb(&raw, &mut sent)?;
                     let s = sent[k].clone();
+                    if s.v6 {
+                        continue;
+                    }
                     let Some(wire) = s.wire.clone() else { continue };
                     let keep = if *quote == 255 { wire.len() } else { (8 + *quote as usize).min(wire.len()) };
                     let quoted = icmp::ipv4_packet(1, &[], [127, 0, 0, 1], s.dest.octets(), &wire[..keep]);
@@ -968,6 +1061,9 @@ pub mod forwarder {
                         continue;
                     }
                     let s = sent[idx((*n as u16) << 8, sent.len())].clone();
+                    if s.v6 {
+                        continue;
+                    }
                     raw.send(1, &icmp::echo(0, 0, s.id, s.seq, &[]));
                     let alive = s.at.elapsed() < Duration::from_millis(TIMEOUT_MS * 7 / 10);
                     let expired = s.at.elapsed() > Duration::from_millis(TIMEOUT_MS * 13 / 10 + 50);
@@ -985,6 +1081,9 @@ pub mod forwarder {
             }
             tokio::time::sleep(Duration::from_millis(15)).await;
             absorb(&raw, &mut sent)?;
+            if let Some(r6) = &raw6 {
+                absorb6(r6, &mut sent)?;
+            }
             for (ci, cl) in clients.iter_mut().enumerate() {
                 while let Ok(r) = cl.rx.try_recv() {
                     got[ci].push(r);
@@ -1016,6 +1115,9 @@ pub mod forwarder {
         }
         tokio::time::sleep(Duration::from_millis(60)).await;
         absorb(&raw, &mut sent)?;
+        if let Some(r6) = &raw6 {
+            absorb6(r6, &mut sent)?;
+        }
         for s in &sent {
             ensure!(
                 s.silent || s.wire.is_some(),
@@ -1024,7 +1126,7 @@ pub mod forwarder {
                 s.client,
                 s.id,
                 s.seq,
-                s.dest
+                if s.v6 { "::1".to_string() } else { s.dest.to_string() }
             );
         }
         for (ci, cl) in clients.iter_mut().enumerate() {
@@ -1065,13 +1167,14 @@ pub mod forwarder {
             "forwarder-histories"
         }
         fn rule(&self) -> String {
-            "three clients with CONNECT _icmp streams (HTTP/2 in memory) on one real IcmpForwarder bound to lo (raw ICMP sockets, kernel echo replies); histories of 3-12 operations: echo to 127.0.0.x with a generated TTL (64, 1, 255, any) and data size, echo to a silent address, forged destination-unreachable / time-exceeded quoting the n-th request (sniffed from the wire) with 0-200 payload bytes or completely, errors about a request nobody sent, truncated errors, forged (possibly late) echo replies, waiting past the request time-out (400 ms); oracle: every request to 127.0.0.x is seen on the wire exactly once with the requested TTL, destination, identifier, sequence number and data size and a verifying checksum; every reply / error about a pending request reaches exactly the requesting client with the responder's address, type, code, id and seq, once per packet; nothing else is reported to anybody; the waiter table is empty after the time-out; non-trivial = two clients with pending requests at the same time".into()
+            "three clients with CONNECT _icmp streams (HTTP/2 in memory) on one real IcmpForwarder bound to lo (raw ICMP sockets, kernel echo replies); histories of 3-12 operations: echo to 127.0.0.x with a generated TTL (64, 1, 255, any) and data size, echo to a silent address, ICMPv6 echo to ::1 with a generated hop limit (sniffed on a raw ICMPv6 socket with IPV6_RECVHOPLIMIT), forged destination-unreachable / time-exceeded quoting the n-th request (sniffed from the wire) with 0-200 payload bytes or completely, errors about a request nobody sent, truncated errors, forged (possibly late) echo replies, waiting past the request time-out (400 ms); oracle: every request to 127.0.0.x is seen on the wire exactly once with the requested TTL, destination, identifier, sequence number and data size and a verifying checksum; every reply / error about a pending request reaches exactly the requesting client with the responder's address, type, code, id and seq, once per packet; nothing else is reported to anybody; the waiter table is empty after the time-out; non-trivial = two clients with pending requests at the same time".into()
         }
         fn strategy(&self, _: Tier) -> BoxedStrategy<Case> {
             let op = prop_oneof![
                 5 => (0u8..3, any::<u8>(), prop_oneof![Just(0u16), 1u16..64, 64u16..1200], prop_oneof![3 => Just(64u8), 1 => Just(1u8), 1 => Just(255u8), 2 => 1u8..=255])
                     .prop_map(|(c, host, size, ttl)| Op::Echo { c, host, size, ttl }),
                 3 => (0u8..3, prop_oneof![Just(0u16), 1u16..64, 64u16..1200]).prop_map(|(c, size)| Op::EchoSilent { c, size }),
+                3 => (0u8..3, prop_oneof![Just(0u16), 1u16..64, 64u16..1200], prop_oneof![3 => Just(64u8), 1 => Just(1u8), 1 => Just(255u8), 2 => 1u8..=255]).prop_map(|(c, size, ttl)| Op::Echo6 { c, size, ttl }),
                 5 => (any::<u8>(), any::<u8>(), any::<u8>(), prop_oneof![3 => Just(0u8), 2 => 1u8..64, 2 => Just(255u8), 1 => 64u8..200]).prop_map(|(n, type_id, code, quote)| Op::ErrorAbout { n, type_id, code, quote }),
                 1 => any::<u8>().prop_map(|type_id| Op::ErrorAboutUnknown { type_id }),
                 1 => any::<u8>().prop_map(|cut| Op::Malformed { cut }),
@@ -1087,7 +1190,7 @@ pub mod forwarder {
             let mut clients = std::collections::BTreeSet::new();
             for op in &c.ops {
                 match op {
-                    Op::Echo { c, .. } | Op::EchoSilent { c, .. } => {
+                    Op::Echo { c, .. } | Op::EchoSilent { c, .. } | Op::Echo6 { c, .. } => {
                         clients.insert(c % 3);
                     }
                     _ => {}
@@ -1102,6 +1205,9 @@ pub mod forwarder {
             }
             if c.ops.contains(&Op::WaitTimeout) {
                 v.push("timeout");
+            }
+            if c.ops.iter().any(|o| matches!(o, Op::Echo6 { .. })) {
+                v.push("icmpv6");
             }
             let ttls: Vec<u8> = c.ops.iter().filter_map(|o| if let Op::Echo { ttl, .. } = o { Some(*ttl) } else { None }).collect();
             if ttls.windows(2).any(|w| w[0] != w[1]) {
